@@ -409,8 +409,13 @@ class Interp:
         qn = qualname or (f"{self_cls.qualname}.{fnode.name}" if self_cls else f"{mod.name}.{fnode.name}")
         frame = _Frame(self, mod, fnode, self_cls, rec, qn, depth=0, stack=(id(fnode),))
         st = frame.bind_params(args or {}, symbolic_missing=True)
-        frame.exec_block(fnode.body, st)
+        final = frame.exec_block(fnode.body, st)
         rec.is_generator = frame.is_generator
+        if final is not None and not frame.is_generator and any(r.kind == "return" and r.value != NONE for r in rec.returns):
+            # a function that returns values can also run to its end: the implicit `return None` of that path
+            r = Ret("return", NONE, final.pc, (), frame.seq(), qn, getattr(fnode, "end_lineno", fnode.lineno) or fnode.lineno)
+            r.implicit = True
+            rec.returns.append(r)
         return rec
 
     def fresh(self) -> int:
@@ -837,14 +842,27 @@ def unrollable(node: ast.For) -> bool:
 
 
 def _unrollable_body(node: ast.For) -> bool:
+    # a short table written in the loop header itself may drive inner loops: each row gets its own copy of them
+    rows_in_place = isinstance(node.iter, ast.Tuple) and 0 < len(node.iter.elts) <= 8 and all(_table_row(e) for e in node.iter.elts)
     for st in node.body:
         for n in ast.walk(st):
             if isinstance(n, ast.Try) and try_as_ifs(n) is not None:
                 continue            # an EAFP lookup: interpreted as the conditional it equals
+            if rows_in_place and isinstance(n, ast.For):
+                continue
             if isinstance(n, (ast.Break, ast.Continue, ast.Return, ast.Yield, ast.YieldFrom, ast.For, ast.While, ast.Try,
                               ast.With, ast.FunctionDef, ast.Lambda)):
                 return False
     return True
+
+
+# The package's four long-lived parser objects: their construction `Cls(args)` stays a call term (the rules recognise the
+# pipelines built over them by that shape, and their methods are analysed one by one with a symbolic `self`).  Every other
+# plain class is a helper whose objects are followed through __init__ and method calls.
+API_CLASSES = frozenset({
+    "pykdebugparser.kd_buf_parser.KdBufParser", "pykdebugparser.traces_parser.TracesParser",
+    "pykdebugparser.callstacks_parser.CallstacksParser", "pykdebugparser.pykdebugparser.PyKdebugParser",
+})
 
 
 class _Terminated(Exception):
@@ -1026,7 +1044,8 @@ class _Frame:
             self.rec.returns.append(Ret("return", v, st.pc, self.loops, self.seq(), self.qualname, s.lineno))
         self.local_returns.append((st.pc, v))
         self.exit_states.append((st.pc, dict(st.env)))
-        if self.depth == 0:
+        if self.depth == 0 or getattr(self, "expanded_generator", False):
+            # (in a generator that another one delegates to, `return` ends the delegated part: it leaves its loops)
             self._loop_exit("return", st, s)
         return None
 
@@ -1290,6 +1309,18 @@ class _Frame:
                 if w.op in ("param", "attr", "sub", "elem", "global", "alias") or (w.op == "ite" and _reached_object(w)):
                     continue
             names.append(n)
+        if env is not None:
+            # a local object of a package class whose methods are called (or that is handed to a call) may change too
+            objs = {k for k, v in env.items() if v.op == "new"}
+            if objs:
+                for st_ in stmts:
+                    for n in ast.walk(st_):
+                        if isinstance(n, ast.Call):
+                            if isinstance(n.func, ast.Attribute) and isinstance(n.func.value, ast.Name) and n.func.value.id in objs:
+                                names.append(n.func.value.id)
+                            for a_ in list(n.args) + [k.value for k in n.keywords]:
+                                if isinstance(a_, ast.Name) and a_.id in objs:
+                                    names.append(a_.id)
         seen = []
         for n in names:
             if n not in seen:
@@ -1309,7 +1340,11 @@ class _Frame:
         for n in carried:
             if n in st.env:
                 init[n] = st.env[n]
-                st.env[n] = T("widen", (n, lid, (st.env[n],)))
+                if st.env[n].op == "new":
+                    # an object is carried field by field
+                    st.env[n] = T("new", (st.env[n].a[0], tuple((f, T("widen", (f"{n}.{f}", lid, (v,)))) for f, v in st.env[n].a[1])))
+                else:
+                    st.env[n] = T("widen", (n, lid, (st.env[n],)))
         # heap entries that the body may overwrite are dropped (conservative)
         self.loops = self.loops + (lid,)
         start = self.seq()
@@ -1347,9 +1382,19 @@ class _Frame:
             for bpc, benv in lr.continue_envs + lr.break_envs:
                 if n in benv and benv[n] != step:
                     cond = pc_to_term(bpc[entry_len:])
-                    step = benv[n] if (step is None or cond is None) else T("ite", (cond, benv[n], step))
+                    step = benv[n] if (step is None or cond is None) else merge_terms(cond, benv[n], step)
             if step is not None:
                 vals.append(step)
+            if len(vals) == 2 and vals[0].op == "new" and vals[1].op == "new" and vals[0].a[0] == vals[1].a[0] \
+                    and [f for f, _ in vals[0].a[1]] == [f for f, _ in vals[1].a[1]]:
+                fields = []
+                for (f, v0), (_, v1) in zip(vals[0].a[1], vals[1].a[1]):
+                    w = T("widen", (f"{n}.{f}", lid, tuple(_dedupe([v0, v1]))))
+                    lr.carried[f"{n}.{f}"] = w
+                    fields.append((f, w))
+                after.env[n] = T("new", (vals[0].a[0], tuple(fields)))
+                lr.carried[n] = after.env[n]
+                continue
             after.env[n] = T("widen", (n, lid, tuple(_dedupe(vals))))
             lr.carried[n] = after.env[n]
         after.heap = {}
@@ -1404,8 +1449,9 @@ class _Frame:
                         and len({k for k, _ in d_.a[0]}) == len(d_.a[0]):
                     # a dict literal with distinct constant keys (e.g. the **kwargs of an inlined call), in insertion order
                     items = T("tuple", (tuple({"items": T("tuple", ((k, v),)), "values": v, "keys": k}[view] for k, v in d_.a[0]),))
-                elif items.op == "tuple" and items.a[0] and len(items.a[0]) <= 64 and isinstance(s.iter, ast.Name) \
-                        and not any(i.op == "star" for i in items.a[0]):
+                elif items.op == "tuple" and items.a[0] and len(items.a[0]) <= 64 and not any(i.op == "star" for i in items.a[0]) \
+                        and (isinstance(s.iter, ast.Name) or (isinstance(s.iter, ast.Tuple) and len(s.iter.elts) <= 8
+                                                              and all(isinstance(e, ast.Tuple) for e in s.iter.elts))):
                     pass            # a local tuple literal (immutable): one copy of the body per item, whatever the items are
                 elif module_table:
                     pass
@@ -2276,6 +2322,7 @@ class _Frame:
             pos.insert(0, recv)
         cs = fr.bind_params({}, symbolic_missing=False, positional=tuple(pos), kwargs=kwargs)
         cs.heap = st.heap
+        fr.expanded_generator = True
         fr.exec_block(fnode.body, cs)
         return True
 
@@ -2315,8 +2362,10 @@ class _Frame:
                 items = self.eval(found[2], st)
         # a literal written in the comprehension itself is evaluated once, in order, before the first iteration: its
         # items need not be constants
+        local_tuple = isinstance(g.iter, ast.Name) and g.iter.id in st.env and items.op == "tuple" \
+            and not any(i.op == "star" for i in items.a[0])     # an (immutable) tuple built earlier in this function
         if not (items.op in ("tuple", "list") and items.a[0] and len(items.a[0]) <= 64
-                and (inline or all(_const_tree(i) for i in items.a[0]))):
+                and (inline or local_tuple or all(_const_tree(i) for i in items.a[0]))):
             del self.rec.pops[saved[0]:]
             del self.rec.calls[saved[1]:]
             del self.rec.effects[saved[2]:]
@@ -2480,6 +2529,16 @@ class _Frame:
                     new = self.construct(ci, args, kwargs, st)
                     if new is not None:
                         return new
+                if not ci.is_dataclass and not ci.enum_kind and "__init__" in ci.methods and "__new__" not in ci.methods \
+                        and all(b in ("object", "builtins.object") for b in ci.bases) and not ci.node.decorator_list \
+                        and ci.qualname not in API_CLASSES:
+                    # a plain helper class: the object is what __init__ makes of an empty one
+                    blank = T("new", (ci.qualname, ()))
+                    r = self.inline(ci.module, ci.methods["__init__"], ci, args, kwargs, st, f"{ci.qualname}.__init__", recv=blank)
+                    rf = getattr(self, "_recv_final", None)
+                    self._recv_final = None
+                    if r is not None and rf is not None and rf.op == "new":
+                        return rf
                 if ci.enum_kind and len(args) == 1 and args[0].op == "const":
                     for mname, mval in ci.members:
                         if mval == args[0].a[0]:
@@ -2492,6 +2551,9 @@ class _Frame:
                 r = self.inline(found[1], found[2], None, args, kwargs, st, func.a[0])
                 if r is not None:
                     return r
+                g = self._generator_as_comp(found[1], found[2], args, kwargs, st)
+                if g is not None:
+                    return g
             return opaque
         # ---- lambdas / local defs
         if func.op == "call" and func.a[0] == T("global", ("functools.partial",)) and func.a[1] \
@@ -2528,6 +2590,12 @@ class _Frame:
                 if name in ci.methods:
                     r = self.inline(ci.module, ci.methods[name], ci, args, kwargs, st, f"{ci.qualname}.{name}", recv=recv)
                     if r is not None:
+                        rf = getattr(self, "_recv_final", None)
+                        root_ = node.func.value if isinstance(node, ast.Call) and isinstance(node.func, ast.Attribute) else None
+                        if rf is not None and rf != recv and isinstance(root_, ast.Name) and root_.id in st.env \
+                                and st.env[root_.id] == recv:
+                            st.env[root_.id] = rf           # the method changed its object: the caller's name sees it
+                        self._recv_final = None
                         return r
             if name in MUTATORS:
                 pth = self.path_of(node.func.value, st) if isinstance(node, ast.Call) and isinstance(node.func, ast.Attribute) else None
@@ -2634,6 +2702,43 @@ class _Frame:
             return opaque
         return opaque
 
+    def _generator_as_comp(self, mod: ModuleInfo, fnode, args: tuple, kwargs: tuple, st: State) -> Optional[T]:
+        """A generator function whose body is one loop that yields under conditions,
+
+            def picked(xs, k):
+                for x in xs:
+                    if c(x, k):
+                        yield e(x)
+
+        called with arguments, is the generator expression (e(x) for x in xs if c(x, k)) over those arguments."""
+        if self.depth >= self.I.inline_depth or id(fnode) in self.stack or fnode.decorator_list:
+            return None
+        if any(a.op == "star" for a in args) or any(k == "**" for k, _ in kwargs):
+            return None
+        body = [b for b in fnode.body if not (isinstance(b, ast.Expr) and isinstance(b.value, ast.Constant))]
+        if len(body) != 1 or not isinstance(body[0], ast.For) or body[0].orelse:
+            return None
+        loop = body[0]
+        conds = []
+        inner = loop.body
+        while len(inner) == 1 and isinstance(inner[0], ast.If) and not inner[0].orelse:
+            conds.append(inner[0].test)
+            inner = inner[0].body
+        if not (len(inner) == 1 and isinstance(inner[0], ast.Expr) and isinstance(inner[0].value, ast.Yield)
+                and inner[0].value.value is not None):
+            return None
+        if any(isinstance(x, (ast.Yield, ast.YieldFrom, ast.Await, ast.NamedExpr)) for c in conds + [loop.iter] for x in ast.walk(c)):
+            return None
+        gen = ast.GeneratorExp(elt=inner[0].value.value,
+                               generators=[ast.comprehension(target=loop.target, iter=loop.iter, ifs=conds, is_async=0)])
+        ast.copy_location(gen, loop)
+        ast.fix_missing_locations(gen)
+        fr = _Frame(self.I, mod, fnode, None, self.rec, f"{mod.name}.{fnode.name}", self.depth + 1, self.stack + (id(fnode),),
+                    base_pc=st.pc, base_loops=self.loops, base_trys=self.trys)
+        cs = fr.bind_params({}, symbolic_missing=False, positional=tuple(args), kwargs=kwargs)
+        cs.heap = st.heap
+        return fr.eval(gen, cs)
+
     def construct(self, ci: ClassInfo, args: tuple, kwargs: tuple, st: State) -> Optional[T]:
         names = ci.field_names()
         if any(a.op == "star" for a in args) or any(k == "**" for k, _ in kwargs):
@@ -2681,6 +2786,19 @@ class _Frame:
         if fr.is_generator:
             return None
         rets = fr.local_returns
+        self._recv_final = None
+        if cls is not None and not is_static and recv is not None and recv.op == "new" and fnode.args.args:
+            # the receiver after the call: what `self` denotes at each exit of the method, joined
+            sname = fnode.args.args[0].arg
+            exits_ = list(fr.exit_states) + ([(final.pc, final.env)] if final is not None else [])
+            if exits_:
+                base_l = len(st.pc)
+                merged_ = exits_[-1][1].get(sname, recv)
+                for pc_, env_ in reversed(exits_[:-1]):
+                    v_ = env_.get(sname, recv)
+                    cond_ = pc_to_term(pc_[base_l:])
+                    merged_ = v_ if cond_ is None else (merged_ if v_ == merged_ else merge_terms(cond_, v_, merged_))
+                self._recv_final = merged_
         # a local container of the caller that the callee mutated in place: the caller's name must see the change
         arg_nodes = getattr(self, "_call_arg_nodes", None)
         if arg_nodes is not None:
@@ -2706,6 +2824,9 @@ class _Frame:
                     cond = pc_to_term(pc[base_len0:])
                     merged = v if cond is None else (merged if v == merged else merge_terms(cond, v, merged))
                 st.env[anode.id] = merged
+        if final is not None and rets:
+            # the body can also run to its end: an implicit `return None` on that path
+            rets = rets + [(final.pc, NONE)]
         if not rets:
             return NONE
         # fold: the last return is the default; earlier ones are guarded by the part of their pc beyond the caller's
@@ -2731,8 +2852,10 @@ class _Frame:
         callee_state.heap = st.heap
         if kind == "lambda":
             return fr.eval(node.body, callee_state)
-        fr.exec_block(node.body, callee_state)
+        final = fr.exec_block(node.body, callee_state)
         rets = fr.local_returns
+        if final is not None and rets:
+            rets = rets + [(final.pc, NONE)]
         if not rets:
             return NONE
         base_len = len(st.pc)
